@@ -28,6 +28,7 @@ const (
 	idLastCommit   = "C20-block-lastcommit-unbound" // LastCommitHash covers the signatures only: height/round/block id of Block.LastCommit are relayed unchecked
 	idEmptyRoot    = "C20-query-empty-apphash-any-value" // against an empty trusted app hash an uncomputable proof root (nil) "matches": any forged key/value is relayed
 	idBlockSearch  = "C20-blocksearch-unverified" // BlockSearch relays blocks without verifying them
+	idProxyRoutes  = "C20-proxy-route-args" // light/proxy route table: argument names of block_search (net_info, genesis_chunked) do not match the functions
 	idLatestNil    = "C20-latest-nil-deref" // Commit/Validators without a height panic when the light client is already at the tip
 )
 
